@@ -68,10 +68,11 @@ class C16(Prop):
         # several waiters on one condition variable: every one of them must be released by the event that ends its wait
         wl = [f"qwake {c} {3 if ctx.tier == 'quick' else 15}" for c in (1, 2, 3)]
         wout = ctx.run_impl(exe, wl, "queue-wake", timeout=240)
-        names = ["W1 consumers blocked, put+close", "W2 two consumers, two puts", "W3 producers blocked on full queue, close", "W4 two producers, two gets", "W5 producer blocked, get+close"]
+        names = ["W1 consumers blocked, put+close", "W2 two consumers, two puts", "W3 producers blocked on full queue, close", "W4 two producers, two gets", "W5 producer blocked, get+close",
+                 "W6 consumer blocked, an item put and taken at once by another caller"]
         for ln, o in zip(wl, wout):
             f = o.split()
-            if len(f) != 15:
+            if len(f) != 18:
                 continue
             v = [int(x) for x in f]
             for i, nm in enumerate(names):
@@ -81,10 +82,13 @@ class C16(Prop):
                 ctx.count((ln, nm), nontrivial=True)
                 ctx.stat("wake:" + nm.split()[0], n)
                 late = worst > 400
-                bad = (i in (0, 2) and anom > 0)
+                bad = (i in (0, 2, 4, 5) and anom > 0)
                 if late or bad:
+                    why = ("slowest waiter returned after %d ms (its own time-out is 2000 ms; must be released at once)" % worst if late or i in (0, 2) else
+                           "after close() returned the queue accepted an item (CLOSED while holding one), or an accepted item was not delivered" if i == 4 else
+                           "a get gave up (returned false) on an open queue long before its time-out")
                     ctx.violate(f"queue-wake:{nm.split()[0]}",
-                                f"queue<int,{ln.split()[1]}> {nm}: slowest waiter returned after {worst} ms (its own time-out is 2000 ms; must be released at once), {anom} anomalous outcomes in {n} trials",
+                                f"queue<int,{ln.split()[1]}> {nm}: {why}, {anom} anomalous outcomes in {n} trials",
                                 {"stream": "queue-wake", "ops": [ln], "impl": o, "scenario": nm})
         # sequential words around close, against the model
         rng = ctx.rng
